@@ -43,7 +43,7 @@ func (a absState) key() string {
 
 type tlcGraph struct {
 	states []absState
-	index  map[string]int  // key -> state index
+	index  map[string]int     // key -> state index
 	succ   []map[string][]int // per state: edge label -> successor indexes
 	edges  int
 	init   int
@@ -408,7 +408,9 @@ func (r *c06Runner) replayEdge(si int, p *c06Point, in *c06Instr) ([]string, str
 func c06Lattice(quick bool) []c06Point {
 	def := c06Point{PC: 0x0100, SP: 0x8000, I: 0x12, Vec: 0x40, IM0: []uint8{0xFF}}
 	pcs := []uint16{0x0100, 0x0000, 0x8000, 0xFFFC, 0xFFFD, 0xFFFE, 0xFFFF}
-	sps := func(pc uint16) []uint16 { return []uint16{0x8000, 0x0000, 0x0001, 0x0002, 0xFFFF, pc + 1, pc + 2, pc + 3} }
+	sps := func(pc uint16) []uint16 {
+		return []uint16{0x8000, 0x0000, 0x0001, 0x0002, 0xFFFF, pc + 1, pc + 2, pc + 3}
+	}
 	is := []uint8{0x00, 0x01, 0x80, 0xFF}
 	vecs := []uint8{0x00, 0x02, 0x40, 0x7E, 0x80, 0xFE}
 	datas := [][]uint8{{0xC7}, {0xCF}, {0xD7}, {0xDF}, {0xE7}, {0xEF}, {0xF7}, {0xFF}, {0xCD, 0x34, 0x12}, {0xCD, 0xFF, 0xFF}}
